@@ -222,7 +222,7 @@ class Gen:
         has_init = r.chance(5, 6) if with_init is None else with_init
         init, txt = (None, None)
         if has_init:
-            init, txt = self.expr(t, r.below(3) if depth is None else depth)
+            init, txt = self.expr(t, r.below(3) if depth is None else depth, small=(declared is False))
         decl_ty = t
         if declared is False and has_init:
             decl_ty = None
@@ -453,10 +453,12 @@ def program(rng, kind):
     n = r.range(*prof["n"])
     for i in range(n):
         declared = None
+        d = prof["depth"]
+        depth = d if kind == "unit" and i > 0 else r.below(d + 1)
         if kind == "mixed" and r.chance(1, 8):
             declared = False
-        d = prof["depth"]
-        g.add_override(declared=declared, depth=(d if kind == "unit" and i > 0 else r.below(d + 1)))
+            depth = min(depth, 1)
+        g.add_override(declared=declared, depth=depth)
     # global initialisers derived from overrides
     globs = []
     if kind != "values" and r.chance(1, 2):
@@ -785,6 +787,29 @@ def matrix_programs(full=True):
         two, twot = _lit_for(t, 2 if t != F32 else 3.0)
         e, txt = [4, MUL, [1, 0], two], "(%s * %s)" % (a["name"], twot)
         out.append(_prog([a, _decl(1, t, (e, txt))], [], [], vmap=[[a["name"], f64bits(float("nan"))]]))
+    # overrides the MSL pass cannot resolve (unary default) referenced by others
+    for t, ue, second in ((I32, _neg(lit_int(5, 1)), lit_int(1, 1)), (U32, ([3, BNOT, lit_int(8, 2)[0]], "~(8u)"), lit_int(1, 2)),
+                          (F32, _neg(lit_float("2.5", 0)), lit_float("1.5", 0)), (BOOL, ([3, NOT, lit_bool(True)[0]], "!(true)"), None)):
+        a = _decl(0, t, ue)
+        out.append(_prog([a, _decl(1, t, ([1, 0], a["name"]))], [], [], vmap=trigger))
+        if second is not None:
+            e, txt = [4, ADD, [1, 0], second[0]], "(%s + %s)" % (a["name"], second[1])
+            out.append(_prog([a, _decl(1, t, (e, txt))], [], [], vmap=trigger))
+    # ... and an unresolved override without type annotation (not compared itself) referenced by another
+    for t, ie, e2 in ((U32, ([4, BOR, lit_int(12, 2)[0], lit_int(3, 2)[0]], "(12u | 3u)"), lambda n: ([4, GT, [1, 0], lit_int(1, 2)[0]], "(%s > 1u)" % n)),
+                      (BOOL, ([4, BOR, lit_bool(True)[0], lit_bool(False)[0]], "(true | false)"), lambda n: ([4, EQ, [1, 0], lit_bool(True)[0]], "(%s == true)" % n))):
+        a = _decl(0, t, ie, declared=False)
+        out.append(_prog([a, _decl(1, BOOL, e2(a["name"]))], [], [], vmap=trigger))
+    # sign of zero, abstract division by zero, constant left operand of && / || in a function
+    out.append(_prog([_decl(0, F32, _neg(lit_int(0, 0)))], [], [], vmap=trigger))
+    out.append(_prog([_decl(0, F32, ([4, DIV, lit_int(5, 0)[0], lit_int(0, 0)[0]], "(5 / 0)"))], [], [], vmap=trigger))
+    a = _decl(0, BOOL, lit_bool(True))
+    for op, lv in ((LAND, True), (LOR, False)):
+        e, txt = [4, op, lit_bool(lv)[0], [1, 0]], "(%s %s %s)" % ("true" if lv else "false", BOPS[op], a["name"])
+        out.append(_prog([a], [], [{"name": "ra", "ty": BOOL, "e": e, "text": txt}], vmap=trigger))
+    # a derived bool sees a raw NaN
+    a = _decl(0, BOOL, lit_bool(True))
+    out.append(_prog([a, _decl(1, BOOL, ([3, NOT, [1, 0]], "!(%s)" % a["name"]))], [], [], vmap=[[a["name"], f64bits(float("nan"))]]))
     # abstract-int division evaluated in floating point
     out.append(_prog([_decl(0, F32, ([4, DIV, lit_int(100, 0)[0], lit_int(9, 0)[0]], "(100 / 9)"))], [], [], vmap=trigger))
     # derived global initialisers whose lowering drops them; defaults dropped inside an operator
